@@ -75,6 +75,8 @@ class Rig:
         self.first_pairing_id = id(self.pairing)
         self.log = []
         self.pairing.dispatcher_connect(lambda ev: self.log.append(dict(ev)))
+        self.avail = []  # what availability listeners were told
+        self.pairing.dispatcher_availability_changed(lambda a: self.avail.append(bool(a)))
         self.model_last = last
         self.chars = dict(CHARS)
         # a second accessory paired on the same controller, with its own key and identifiers, at the same state number
@@ -297,6 +299,7 @@ def step(rig: Rig, sym, arg=None):
     data, m = b
     before = rig.state()
     nlog = len(rig.log)
+    av_before = (len(rig.avail), bool(rig.pairing.is_available))
     out = []
     det = {"sym": sym, "arg": arg, "last": last}
     try:
@@ -309,6 +312,11 @@ def step(rig: Rig, sym, arg=None):
     legit = m["authentic"] and m.get("inner_ok") and m["gsn"] > last
     undeliverable = m.get("unknown_iid") or m.get("iid") not in rig.chars or (m.get("iid") == 16 and not _utf8(m.get("value8", b"")))
     accepted = bool(new) or after[0] != before[0]
+    av_after = (len(rig.avail), bool(rig.pairing.is_available))
+    if av_after != av_before and not legit:
+        # "heard from the accessory" is state too: only an authentic, fresh broadcast may say so
+        why = "forged" if not m["authentic"] else ("inner-counter-mismatch" if not m.get("inner_ok") else "stale")
+        out.append((f"{why}-broadcast-changes-availability:{sym}", dict(det, available_before=av_before[1], available_after=av_after[1], listeners_told=rig.avail[av_before[0]:])))
     if accepted and not legit:
         why = "forged" if not m["authentic"] else ("inner-counter-mismatch" if not m.get("inner_ok") else "stale")
         out.append((f"notification-accepted-though-{why}:{sym}", dict(det, log=new, state=after)))
